@@ -451,6 +451,12 @@ func commodityText(symbol string) string {
 	if letters > 0 && signs > 0 {
 		return "\"" + symbol + "\""
 	}
+	// only one sign, and one the parser knows, stands for itself ("₹" and "$$" need their quotes)
+	if signs > 0 {
+		if r, size := utf8.DecodeRuneInString(symbol); size != len(symbol) || !parser.IsCurrencySymbol(r) {
+			return "\"" + symbol + "\""
+		}
+	}
 	return symbol
 }
 
